@@ -30,11 +30,17 @@ Entries(ts, k, off) == IF ts = << >> THEN << >>
                        ELSE LET w == ContentWords(Shape(Head(ts), k))
                             IN  BE32(off) \o BE32(w) \o Entries(Tail(ts), k + 1, off + 4 + w)
 
+\* the same entries listed in REVERSE order (an index need not follow the physical order)
+RECURSIVE RevEntries(_, _)
+RevEntries(e, n) == IF n = 0 THEN << >> ELSE SubSeq(e, 8 * (n - 1) + 1, 8 * n) \o RevEntries(e, n - 1)
+
 MkFile(ts) ==
     LET rb == Recs(ts, 1)
         t0 == IF ts = << >> THEN 0 ELSE ts[1]
+        en == Entries(ts, 1, 50)
     IN  [types |-> ts, shp |-> EncodeHeader(50 + Len(rb) \div 2, t0, ZeroBox) \o rb,
-         shx |-> EncodeHeader(50 + 4 * Len(ts), t0, ZeroBox) \o Entries(ts, 1, 50)]
+         shx |-> EncodeHeader(50 + 4 * Len(ts), t0, ZeroBox) \o en,
+         shxRev |-> EncodeHeader(50 + 4 * Len(ts), t0, ZeroBox) \o RevEntries(en, Len(ts))]
 
 TypeSeqs == { << >> } \cup { << a >> : a \in Codes } \cup { << a, b >> : a, b \in Codes }
             \cup { << a, a, b >> : a, b \in Codes }
